@@ -126,7 +126,7 @@ func (s *UserSpec) Size() int {
 
 // Gen draws record graphs.  Identifiers: 0 = let the database assign; an id
 // below 100 names a fixture row (the write collides with / upserts it); ids
-// from 1000 upward are fresh explicit keys handed out by the generator.
+// from 2000 upward (step 1000) are fresh explicit keys handed out by the generator.
 type Gen struct {
 	R     *core.Rand
 	next  uint
@@ -143,7 +143,7 @@ func (g *Gen) id(max int) uint {
 	case x < 5:
 		return 0
 	case x < 8:
-		g.next++
+		g.next += 1000 // sparse: keys the database assigns after an explicit one never reach the next explicit one
 		return g.next
 	default:
 		return uint(1 + g.R.Intn(max))
